@@ -74,6 +74,14 @@ def gen_landscape_data(rng, base, span):
     return out
 
 
+def add_essential_bar(rng, X):
+    """One bar of infinite death per degree (what ripser reports for H0), born before or with the first finite bar."""
+    for d in X:
+        b0 = min(q[0] for q in d)
+        d.insert(rng.randrange(len(d) + 1), [b0 - rng.choice((0.0, 0.25, 1.0)), float("inf")])
+    return X
+
+
 def gen_case(rng, tier):
     K = rng.randint(1, 4)
     insts = []
@@ -98,6 +106,8 @@ def gen_case(rng, tier):
         base = rng.choice((0.0, 1.0, 10.0, -4.0, 100.0))
         span = rng.choice((4.0, 8.0, 1.0, 16.0))
         ldata.append(gen_landscape_data(rng, base, span))
+        if rng.random() < 0.2:
+            add_essential_bar(rng, ldata[-1])
         coll = []
         for _ in range(rng.randint(1, 4)):
             n = rng.randint(1, 5)
@@ -262,6 +272,9 @@ def check_data(inp):
             if not d:
                 raise InvalidCase("empty degree")
             a = np.array(d, float)
+            a = a[np.isfinite(a[:, 1])]
+            if not len(a):
+                raise InvalidCase("no finite bar")
             span = a[:, 1].max() - a[:, 0].min()
             if not np.all(a[:, 1] - a[:, 0] >= span / 8.0 - 1e-12):
                 raise InvalidCase("bars must span several grid steps")
@@ -323,6 +336,11 @@ def _run(case, sched, world):
             raise InvalidCase("op refs")
         it, est = insts[k], ests[k]
         tname = "PersistenceImager" if it["type"] == "imager" else "PersistenceLandscaper"
+        if kind != "set" and it["type"] == "landscaper" and "stop" not in it["args"] and \
+                any(q[1] == float("inf") for d_ in inp["ldata"][j] for q in d_):
+            # learning `stop` from data with an essential bar gives an infinite grid (fit's own TODO): only landscapers
+            # whose stop the user fixed see such data
+            continue
         if kind == "set":
             prm, val = op.get("param"), op.get("val")
             user_sets += 1
